@@ -109,6 +109,37 @@ pub fn jwk(cex: &Value) -> Result<String, String> {
         }
       }
     }
+    // keys converted from the json-proof-token representation: whatever that key says about itself (its nested kty is set to OKP by
+    // that crate's own public projection), the converted key carries EC parameters and declares EC
+    {
+      use jsonprooftoken::jwk::alg_parameters::{JwkAlgorithmParameters, JwkEllipticCurveKeyParameters};
+      use jsonprooftoken::jwk::curves::EllipticCurveTypes;
+      use jsonprooftoken::jwk::key::Jwk as JptJwk;
+      use jsonprooftoken::jwk::types::KeyType;
+      for nested in [KeyType::EllipticCurve, KeyType::OctetKeyPair, KeyType::RSA, KeyType::Octet] {
+        for d in [None, Some("FBUWFxgZGhscHQ")] {
+          let p = JwkEllipticCurveKeyParameters { kty: nested.clone(), crv: EllipticCurveTypes::BLS12381G2, x: "AAECAwQFBgcICQ".to_owned(), y: "CgsMDQ4PEBESEw".to_owned(), d: d.map(str::to_owned) };
+          let src = JptJwk::from_key_params(JwkAlgorithmParameters::EllipticCurve(p));
+          let mut sources = vec![("as built", src.clone())];
+          if let Some(pubk) = src.to_public() {
+            sources.push(("its public projection", pubk));
+          }
+          for (what, k) in sources {
+            match Jwk::try_from(k) {
+              Ok(j) => {
+                if j.kty() != j.params().kty() || j.kty() != JwkType::Ec {
+                  log.push(format!("[coherence] converted JPT key (nested kty {nested:?}, private: {}, {what}): declared {:?}, parameters of family {:?}", d.is_some(), j.kty(), j.params().kty()));
+                }
+                if j.is_public() == d.is_some() && what == "as built" {
+                  log.push(format!("[public] converted JPT key (private: {}): is_public() = {}", d.is_some(), j.is_public()));
+                }
+              }
+              Err(e) => log.push(format!("[coherence] JPT key (nested kty {nested:?}, {what}) does not convert: {e}")),
+            }
+          }
+        }
+      }
+    }
     // optional members: carried over, projection idempotent, thumbprint unaffected
     let mut k = Jwk::from_params(JwkParamsOkp { crv: "Ed25519".into(), x: "x".into(), d: Some("d".into()) });
     let bare = k.thumbprint_sha256_b64();
@@ -195,6 +226,38 @@ pub fn jwk(cex: &Value) -> Result<String, String> {
       let okp = Jwk::from_params(JwkParamsOkp { crv: "Ed25519".into(), x: "11qYAYKxCrfVS_7TyWQHOg7hcvPapiMlrwIaaPcHURo".into(), d: None });
       if okp.thumbprint_sha256_b64() != "kPrK_qmxVWaYVA9wwBF6Iuo3vVzz7TxHCTwXBygrS4k" {
         log.push(format!("[thumbprint] RFC 8037 A.3 example key hashes to {}", okp.thumbprint_sha256_b64()));
+      }
+    }
+    // the checked setter goes by the *declared* type, also on a key whose carried family differs from it (unchecked setter, serde):
+    // parameters of the declared family are accepted and make the key coherent, parameters of any other family are refused
+    {
+      let params = |t: JwkType| -> JwkParams {
+        match t {
+          JwkType::Ec => JwkParams::Ec(identity_jose::jwk::JwkParamsEc { crv: "P-256".into(), x: "eA".into(), y: "eQ".into(), d: Some("ZA".into()) }),
+          JwkType::Okp => JwkParams::Okp(JwkParamsOkp { crv: "Ed25519".into(), x: "eA".into(), d: Some("ZA".into()) }),
+          JwkType::Rsa => JwkParams::Rsa(rsa(1)),
+          JwkType::Oct => JwkParams::Oct(identity_jose::jwk::JwkParamsOct { k: "aw".into() }),
+        }
+      };
+      let all = [JwkType::Ec, JwkType::Okp, JwkType::Rsa, JwkType::Oct];
+      for declared in all {
+        for carried in all {
+          let mut k0 = Jwk::new(declared);
+          k0.set_params_unchecked(params(carried));
+          for given in all {
+            let mut k2 = k0.clone();
+            let ok = k2.set_params(params(given)).is_ok();
+            if ok != (given == declared) {
+              log.push(format!("[coherence] set_params({given:?} parameters) on a key declared {declared:?} carrying {carried:?} parameters: {}", if ok { "accepted" } else { "refused" }));
+            }
+            if ok && (k2.kty() != k2.params().kty() || k2.kty() != declared) {
+              log.push(format!("[coherence] after a successful set_params the key declares {:?} and carries {:?}", k2.kty(), k2.params().kty()));
+            }
+            if !ok && k2 != k0 {
+              log.push("[coherence] a refused set_params changed the key".to_owned());
+            }
+          }
+        }
       }
     }
     // kty / params coherence
